@@ -37,3 +37,12 @@ Example C04_nonvacuous :
   in_limits max FSasl (repeat_byte 97 257) (str "p") = false /\
   in_limits max FBasic (str "a:b") (str "p") = false.
 Proof. vm_compute. auto. Qed.
+
+(* ---- the model's state space is the code's declared state ----
+   (theories/StateInst.v: package-level variables and struct fields listed by tools/facts on every
+   run; the models keep no state between operations other than these components) *)
+From Whawty Require StateInst.
+Theorem C04_agent_state_inventory : StateInst.agent_state_inventory.
+Proof. exact StateInst.agent_state_inventory_holds. Qed.
+Theorem C04_sasl_state_inventory : StateInst.sasl_state_inventory.
+Proof. exact StateInst.sasl_state_inventory_holds. Qed.
